@@ -78,6 +78,23 @@ def bin_completion(binner: Binner, binsize: float, items: List[Any])->BinsArray:
     # Remove zeros from items as they are irrelevant.
     items = [item for item in items if binner.valueof(item)!=0]
 
+    # The search below does arithmetic on the items themselves. When the items are names (keys of a dict,
+    # or a list of names with a value function), search on their values and then put the names back.
+    values = [binner.valueof(item) for item in items]
+    if any(value != item for value, item in zip(values, items)):
+        value_bins = bin_completion(type(binner)(), binsize, values)
+        if not isinstance(binner, BinnerKeepingContents):
+            return value_bins   # the sums are the same, and nothing else is kept.
+        names_of_value = {}
+        for item, value in zip(items, values):
+            names_of_value.setdefault(value, []).append(item)
+        value_lists = value_bins[1]
+        named_bins = binner.new_bins(len(value_lists))
+        for ibin, value_list in enumerate(value_lists):
+            for value in value_list:
+                binner.add_item_to_bin(named_bins, names_of_value[value].pop(0), ibin)
+        return named_bins
+
     # Find the BFD solution and check if it's optimal using the lower bound calculation.
     bfd_solution = best_fit.decreasing(binner, binsize, items)   # same bins-manager as the search below, so that binner.numbins can compare them.
     lb = lower_bound(binsize, map(binner.valueof, items))
